@@ -106,7 +106,18 @@ def generate_playback(w, h, tier):
                 600 + 6 * (h.timeout or TIER_TIMEOUT[tier]), MEM_GB, env)
     text = open(log, errors="replace").read()
     tests = re.findall(r"```\s*\n(.*?)```", text, flags=re.S)
-    tests = [t for t in tests if "kani_concrete_playback" in t and "Check for `cover`" not in t]
+    # keep cover witnesses too: Kani de-duplicates tests by their concrete values, so a witness
+    # that also violates an assertion is labelled as a cover only; natively, a pure cover
+    # witness passes and only a real counterexample fails
+    tests = [t for t in tests if "kani_concrete_playback" in t]
+    # the same test (named by the hash of its values) is printed once per property it witnesses
+    seen, uniq = set(), []
+    for t in tests:
+        m = re.search(r"fn (kani_concrete_playback_\w+)", t)
+        if m and m.group(1) not in seen:
+            seen.add(m.group(1))
+            uniq.append(t)
+    tests = uniq
     return tests, log
 
 
@@ -147,10 +158,12 @@ def run_playback(scratch, build, names, logdir, tag):
     # repository's own #[cfg(test)] modules (DESIGN 2.6)
     feats = []
     if b["package"] == "lorawan-device":
-        extra = [f for f in ",".join(a for a in b["args"] if "region" in a or "serde" in a).split(",")
-                 if f in ("serde",)]
-        if extra:
-            feats = ["--features", ",".join(extra)]
+        # the build's own features plus the two regions the crate's #[cfg(test)] modules need
+        fs = [f for f in b["features"].split(",") if f]
+        for f in ("region-eu868", "region-us915"):
+            if f not in fs:
+                fs.append(f)
+        feats = ["--no-default-features", "--features", ",".join(fs)]
     elif b["package"] == "lora-phy":
         feats = b["args"]
     out = {}
@@ -170,6 +183,9 @@ def run_playback(scratch, build, names, logdir, tag):
         ran = re.search(r"test result: (\w+)\. (\d+) passed; (\d+) failed", text)
         failed = int(ran.group(3)) if ran else 0
         msgs = re.findall(r"panicked at ([^\n]*\n[^\n]*)", text)
+        if not ran:
+            berr = re.findall(r"^error[^\n]*", text, flags=re.M)[:2]
+            msgs = ["PLAYBACK BUILD/RUN FAILED: " + " | ".join(berr)] + msgs
         out[profile] = dict(rc=rc, failed=failed, passed=int(ran.group(2)) if ran else 0,
                             panics=[m.replace("\n", " ")[:300] for m in msgs][:4],
                             built=bool(ran))
@@ -300,6 +316,7 @@ def main():
                             entry["verdict"] = "inconclusive"
                             entry["reason"] += " | no concrete playback generated (see %s)" % glog
                             status = max(status, 2)
+                            lines.append("INCONCLUSIVE property=%s harness=%s: no concrete playback generated: %s" % (prop, h.id, entry["reason"][:400]))
                         else:
                             rep, out, rpath = native_playback(w, h, tests, prop)
                             n_replays += 1
@@ -314,6 +331,7 @@ def main():
                                 entry["verdict"] = "inconclusive"
                                 entry["reason"] += " | counterexample did not reproduce natively"
                                 status = max(status, 2) if status != 1 else 1
+                                lines.append("INCONCLUSIVE property=%s harness=%s: counterexample did not reproduce natively: %s" % (prop, h.id, entry["reason"][:400]))
                 elif verdict == "inconclusive":
                     if status != 1:
                         status = 2
